@@ -179,8 +179,11 @@ def explore_configs(names, init_limit, max_states, make_hooks, max_dev=3, group_
     paths = dict(configs.all_configs(include_examples=False))
 
     def enum_inits(name):
-        env = configs.build(paths[name])
-        inits, info = reset_outcomes(env, init_limit, max_dev=max_dev)
+        try:
+            env = configs.build(paths[name])
+            inits, info = reset_outcomes(env, init_limit, max_dev=max_dev)
+        except Exception as e:  # noqa: BLE001 -- a shipped configuration that cannot be built / reset is a finding, not a crash
+            return name, {'complete': False, 'dev_bound': 0, 'error': f'{type(e).__name__}: {e}'}, []
         groups = {}
         for choices, st in inits:
             k = sdesc(st)
@@ -200,6 +203,9 @@ def explore_configs(names, init_limit, max_states, make_hooks, max_dev=3, group_
         for gi, grp in enumerate(groups):
             jobs.append((name, gi, grp))
     jobs.sort(key=lambda j: -len(j[2]))
+    early = [{'config': name, 'reset_script': [], 'path': [], 'last_action': None, 'last_choices': None,
+              'message': f'building the shipped configuration / its functional_reset raised {info["error"]}'}
+             for name, info, _ in enumerated if info.get('error')]
 
     def run_group(job):
         name, gi, grp = job
@@ -240,7 +246,7 @@ def explore_configs(names, init_limit, max_states, make_hooks, max_dev=3, group_
         s['max_depth'] = max(s['max_depth'], depth)
         s['problems'] = s.get('problems', 0) + nprob
         problems.extend(out)
-    return stats, problems
+    return stats, early + problems
 
 
 def replay_trace(case, make_hooks):
@@ -250,10 +256,13 @@ def replay_trace(case, make_hooks):
     from . import configs
 
     paths = dict(configs.all_configs())
-    env = configs.build(paths[case['config']])
-    on_state, on_edge = make_hooks(env, case['config'])
-    env._rng = ChoiceRng(case['reset_script'] or [])
-    st = env.functional_reset()
+    try:
+        env = configs.build(paths[case['config']])
+        on_state, on_edge = make_hooks(env, case['config'])
+        env._rng = ChoiceRng(case['reset_script'] or [])
+        st = env.functional_reset()
+    except Exception as e:  # noqa: BLE001
+        return f'building the shipped configuration / its functional_reset raised {type(e).__name__}: {e}'
     g = Graph()
     k = sdesc(st)
     msgs = []
